@@ -7,7 +7,7 @@ SEQ_ASSUME = [
     "documents are observed through the public read API only; SQLite and go-sqlite3 are trusted",
 ]
 
-def seq(tests, qchecks=250, tchecks=6000, qshards=8, **extra):
+def seq(tests, qchecks=250, tchecks=6000, qshards=8, per_test=None, **extra):
     d = {
         "tests": tests,
         "level": "exploration",
@@ -15,22 +15,29 @@ def seq(tests, qchecks=250, tchecks=6000, qshards=8, **extra):
         "quick": {"default": {"shards": qshards, "checks": qchecks, "steps": 30, "timeout": 600}},
         "thorough": {"default": {"shards": 16, "checks": tchecks, "steps": 80, "timeout": 3000}},
     }
+    # per_test: {test: (quick shards, quick checks, thorough shards, thorough checks)}
+    for t, (qs, qc, ts, tc) in (per_test or {}).items():
+        d["quick"][t] = {"shards": qs, "checks": qc}
+        d["thorough"][t] = {"shards": ts, "checks": tc}
     d.update(extra)
     return d
 
+SCRIPT = (4, 60, 16, 1500)   # scheduled scripts: cheap per case, fewer cases
+
 CHECKS = {
     "C01": seq(["TestC01"]),
-    "C02": seq(["TestC02Seq"]),
+    "C02": seq(["TestC02Seq", "TestC02Race"], per_test={"TestC02Race": SCRIPT}),
     "C05": seq(["TestC05"]),
     "C06": seq(["TestC06"]),
     "C07": seq(["TestC07"]),
-    "C08": seq(["TestC08Seq", "TestC08Order"]),
-    "C09": seq(["TestC09Seq", "TestC09Gap"]),
+    "C08": seq(["TestC08Seq", "TestC08Order"], per_test={"TestC08Order": SCRIPT}),
+    "C09": seq(["TestC09Seq", "TestC09Gap"], per_test={"TestC09Gap": SCRIPT}),
     "C10": seq(["TestC10"], qchecks=14, tchecks=150, level="fault_enumeration"),
     "C11": seq(["TestC11"], qchecks=60, tchecks=1500),
     "C12": seq(["TestC12"], qchecks=80, tchecks=1200),
     "C13": seq(["TestC13", "TestC13Race"], qchecks=200, tchecks=4000, qshards=4),
+    "C15": seq(["TestC15"], qchecks=12, tchecks=400, qshards=8),
     "C17": seq(["TestC17"]),
-    "C18": seq(["TestC18Seq"]),
+    "C18": seq(["TestC18Seq", "TestC18Race"], per_test={"TestC18Race": SCRIPT}),
     "C19": seq(["TestC19"]),
 }
